@@ -99,8 +99,15 @@ func lenSels(tier string) []int {
 	return []int{0, 1, 2, 3, 4, 5, 9}
 }
 
+var extraSpecs []func(map[string]*CheckSpec)
+
 func checkSpecs() map[string]*CheckSpec {
 	m := map[string]*CheckSpec{}
+	defer func() {
+		for _, f := range extraSpecs {
+			f(m)
+		}
+	}()
 	m["C01"] = &CheckSpec{
 		ID: "C01",
 		Jobs: func(tier string) []Job {
@@ -152,4 +159,169 @@ func checkSpecs() map[string]*CheckSpec {
 		Differential: 8,
 	}
 	return m
+}
+
+func init() {
+	extraSpecs = append(extraSpecs, func(m map[string]*CheckSpec) {
+		m["C02"] = &CheckSpec{
+			ID: "C02",
+			Jobs: func(tier string) []Job {
+				var jobs []Job
+				for _, strict := range []int{0, 1} {
+					for _, j := range shapeJobs(encPkg, "H_C02_roundtrip", tier, []int{0, 1}, lenSels(tier)) {
+						j.Params = append(j.Params, strict)
+						jobs = append(jobs, j)
+					}
+				}
+				jobs = append(jobs, advJobs("H_C02_roundtrip", tier, true)...)
+				return jobs
+			},
+			Explanation: "Bounded symbolic execution of serialize -> encoding.Unmarshal -> serialize on the real SSA. Values are symbolic (strings: arbitrary non-SOH bytes, so '=', digits and text resembling other fields are inside the domain and the solver looks for contents that change the parse). Asserted: no error; every leaf has the same typed value (dynamic Go type included); unpopulated leaves stay null; every group has the same number of entries in the same order; re-serialization is byte-identical. Preconditions as in the property: unique tags, first member of every entry populated, no empty value.",
+			Rule:        "case = (template, population mask, entry counts, length selector, route, strict flag) x path",
+			Bounds:      map[string]string{"quick": "22 templates (14 generic + 8 with adversarial tag sets), depth <= 3, <= 3 entries, value length 1..3 (adversarial templates 1..6), ints one digit class per job <= 5 digits + 64-bit extremes", "thorough": "value length 1..6 everywhere, all 1024 populations of the all-types template"},
+			Assumptions: commonAssumptions,
+			Outside:     "float64/time value semantics (uninterpreted, round-trip axiom); ints beyond 5 digits except the extremes; templates outside the catalogue",
+			Differential: 8,
+		}
+		m["C18"] = &CheckSpec{
+			ID: "C18",
+			Jobs: func(tier string) []Job {
+				jobs := advJobs("H_C02_roundtrip", tier, true)
+				jobs = append(jobs, advJobs("H_C18_vbt", tier, false)...)
+				for _, j := range shapeJobs(encPkg, "H_C18_vbt", tier, []int{0}, []int{1}) {
+					jobs = append(jobs, j)
+				}
+				return jobs
+			},
+			Explanation: "Round-trip (as C02) and fix.ValueByTag oracles on templates built to be adversarial for substring search: tags that extend or truncate a template tag by one digit (1146/46/14 next to 146, 134/4 next to 34, 135/5 next to 35, 110/0 next to 10, 155/5 next to the first member 55, 1711 next to a nested count 711), String leaves of 2..6 unconstrained bytes before, inside and after groups (the solver itself places 'tag=' inside values when that can change the parse), with the genuine field/group present and absent.",
+			Rule:        "case = (adversarial template, population mask, entry counts, length selector) x path",
+			Bounds:      map[string]string{"quick": "5 adversarial templates, value length 2..6, <= 3 entries", "thorough": "more masks and entry-count combinations"},
+			Assumptions: commonAssumptions,
+			Outside:     "message boundary detection by Conn.runReader with values containing '10=' is checked under C04; raw sequence-number extraction in the session under C16",
+			Differential: 6,
+		}
+		m["C11"] = &CheckSpec{
+			ID: "C11",
+			Jobs: func(tier string) []Job {
+				quick := tier == "quick"
+				var jobs []Job
+				maxRaw, maxFramed, maxW := 8, 6, 3
+				if !quick {
+					maxRaw, maxFramed, maxW = 11, 9, 5
+				}
+				for _, t := range []int{14, 15, 16} {
+					for n := 0; n <= maxRaw; n++ {
+						jobs = append(jobs, J(encPkg, "H_C11_raw", n, t, n%2))
+					}
+					for n := 0; n <= maxFramed; n++ {
+						jobs = append(jobs, J(encPkg, "H_C11_framed", n, t, n%2))
+					}
+				}
+				for n := 0; n <= 8; n++ {
+					for k := 0; k <= 3; k++ {
+						jobs = append(jobs, J(encPkg, "H_C11_vbt", n, k))
+					}
+				}
+				// windows over valid nested shapes (concrete values, symbolic window + checksum text)
+				type sh struct {
+					t, nf int
+					c     [3]int
+				}
+				shapes := []sh{{14, 6, [3]int{2, 0, 0}}, {15, 10, [3]int{2, 1, 0}}, {15, 12, [3]int{1, 2, 0}}, {16, 9, [3]int{2, 1, 0}}, {5, 10, [3]int{2, 1, 0}}, {13, 10, [3]int{1, 1, 1}}, {12, 10, [3]int{1, 1, 0}}, {8, 6, [3]int{1, 0, 0}}}
+				all := 1<<30 - 1
+				masks := []int{all, all &^ 4, all &^ 2, 0x15555555}
+				for _, s := range shapes {
+					for _, mk := range masks {
+						for f := 0; f < s.nf; f++ {
+							for w := 1; w <= maxW; w++ {
+								for mode := 0; mode <= 1; mode++ {
+									if mode == 1 && w > 2 && quick {
+										continue
+									}
+									jobs = append(jobs, J(encPkg, "H_C11_window", s.t, mk, s.c[0], s.c[1], s.c[2], 0, 3, (f+w)%2, f, w, mode))
+								}
+							}
+						}
+					}
+				}
+				return jobs
+			},
+			Explanation: "Bounded symbolic execution of encoding.Unmarshal (strict and non-strict) and fix.ValueByTag on (a) completely symbolic byte strings of every length 0..n, (b) correctly framed messages whose body is n completely symbolic bytes and whose checksum text is symbolic, so the integrity check can pass and field/group parsing is reached with adversarial content, (c) valid serialized nested shapes with a window of w symbolic bytes replacing one field or filling one field boundary. Every Go runtime panic on any feasible path is a violation; the per-path instruction budget is the unwinding assertion (termination).",
+			Rule:        "case = (input class, length / window position and width, template) x path",
+			Bounds:      map[string]string{"quick": "raw n<=8, framed body n<=6, ValueByTag msg<=8 tag<=3 bytes, windows w<=3 over 8 nested shapes x 4 populations, templates with 1-digit tags (flat+group, group-in-group, component-in-group) and 5 catalogue shapes", "thorough": "raw n<=11, framed n<=9, windows w<=5"},
+			Assumptions: commonAssumptions,
+			Outside:     "longer arbitrary regions; the session's inbound closures are exercised with damaged messages under C16",
+			Differential: 6,
+		}
+		m["C03"] = &CheckSpec{
+			ID: "C03",
+			Jobs: func(tier string) []Job {
+				quick := tier == "quick"
+				var jobs []Job
+				type sh struct {
+					t, mask, ls, n int
+					c          [3]int
+				}
+				shapes := []sh{{1, 7, 3, 46, [3]int{}}, {1, 6, 1, 36, [3]int{}}, {4, 1<<30 - 1, 0, 60, [3]int{1, 0, 0}}}
+				if !quick {
+					shapes = append(shapes, sh{9, 15, 1, 50, [3]int{}}, sh{5, 1<<30 - 1, 0, 70, [3]int{1, 1, 0}}, sh{1, 7, 5, 60, [3]int{}})
+				}
+				for _, s := range shapes {
+					for kind := 0; kind <= 3; kind++ {
+						for pos := 0; pos < s.n; pos++ {
+							jobs = append(jobs, J(encPkg, "H_C03_damage", s.t, s.mask, s.c[0], s.c[1], s.c[2], s.ls, 0, pos%2, kind, pos))
+						}
+					}
+				}
+				maxN := 7
+				if !quick {
+					maxN = 9
+				}
+				for n := 0; n <= maxN; n++ {
+					for _, t := range []int{14, 15} {
+						jobs = append(jobs, J(encPkg, "H_C03_accept", n, t, n%2, 1))
+						if n >= 6 {
+							jobs = append(jobs, J(encPkg, "H_C03_accept", n, t, n%2, 2))
+						}
+					}
+				}
+				return jobs
+			},
+			Explanation: "Bounded symbolic execution of encoding.Unmarshal. (A) damage neighbourhood: for a serialized shape with symbolic values and every concrete position: substitution by a symbolic byte different from the original (all 255 values in one query), insertion of a symbolic byte, deletion, truncation; asserted: an error is returned (strict flag alternates). (B) soundness of acceptance: 8=F|9=LL|X|10=ccc| with LL, X and ccc symbolic; whenever Unmarshal returns nil an independent oracle must find LL equal to the measured length and ccc equal to the recomputed checksum.",
+			Rule:        "case = (shape, damage kind, position) x path, and (length, template) x path for (B)",
+			Bounds:      map[string]string{"quick": "3 shapes (<= 60 bytes, including a 3-byte value next to a tag one byte away from the CheckSum tag), all positions x 4 damage kinds; acceptance oracle with body <= 7 bytes", "thorough": "6 shapes (<= 70 bytes), acceptance body <= 9 bytes"},
+			Assumptions: commonAssumptions,
+			Outside:     "multi-byte damage; messages longer than the stated shapes",
+		}
+	})
+}
+
+// advJobs: the adversarial-tag templates (17..21).
+func advJobs(h string, tier string, withStrict bool) []Job {
+	quick := tier == "quick"
+	var jobs []Job
+	all := 1<<30 - 1
+	masks := []int{all, all &^ 1, all &^ 2, all &^ 4, 1, 2, 4, 0x15555555, 0x2AAAAAAA}
+	if !quick {
+		masks = append(masks, all&^8, all&^16, 8, 16, 0x33333333, 3, 5, 6)
+	}
+	cnts := map[int][][3]int{17: {{0, 0, 0}, {1, 0, 0}, {2, 0, 0}}, 18: {{0, 0, 0}}, 19: {{0, 0, 0}, {1, 0, 0}, {2, 0, 0}, {3, 0, 0}}, 20: {{0, 0, 0}, {1, 1, 0}, {2, 1, 0}, {2, 2, 0}, {1, 0, 0}}, 21: {{0, 0, 0}, {1, 0, 0}, {2, 0, 0}}}
+	ls := []int{4, 5}
+	if !quick {
+		ls = []int{1, 3, 4, 5}
+	}
+	for t := 17; t <= 21; t++ {
+		for _, c := range cnts[t] {
+			for _, mk := range masks {
+				for _, l := range ls {
+					p := []int{t, mk, c[0], c[1], c[2], l, 0}
+					if withStrict {
+						p = append(p, (mk+l)%2)
+					}
+					jobs = append(jobs, Job{Pkg: encPkg, Harness: h, Params: p})
+				}
+			}
+		}
+	}
+	return jobs
 }
